@@ -273,7 +273,7 @@ func TestC08_BlackBox(t *testing.T) {
 		t.Fatal(err)
 	}
 	defer srv.StopAsync()
-	ev.Rapid("blackbox", ev.Pick(1000, 20000))
+	ev.Rapid("blackbox", ev.Pick(1000, 8000))
 	rapid.Check(t, func(rt *rapid.T) {
 		bc := bbCase{
 			Kinds:  rapid.SliceOfN(rapid.IntRange(-2, 9), 1, 12).Draw(rt, "kinds"),
@@ -964,7 +964,7 @@ func TestC08_Stress(t *testing.T) {
 	}
 	defer srv.StopAsync()
 	nconn := 8
-	perConn := ev.Pick(3000, 100000)
+	perConn := ev.Pick(3000, 50000)
 	var wg sync.WaitGroup
 	var mu sync.Mutex
 	var firstBad string
